@@ -58,6 +58,11 @@ def interpolate [Add K] [Sub K] [Mul K] [OfNat K 0] [OfNat K 1] (Li : Nat → Na
 def interpolateOld [Add K] [Sub K] [Mul K] [OfNat K 0] [OfNat K 1] (Li : Nat → Nat → K) (p0 p1 : Sys K) (α : K) : Sys K :=
   { interpolate Li p0 p1 α with shifts := p0.shifts }
 
+/-- NOT the code: the seeded rule "snap alpha to an end point when it is close to it" (`near0`, `near1` play
+    `np.isclose(alpha, 0.)`, `np.isclose(alpha, 1.)`) -/
+def mixSnap [Add K] [Sub K] [Mul K] [OfNat K 0] [OfNat K 1] (near0 near1 : K → Bool) (α a b : K) : K :=
+  if near0 α then mix 0 a b else if near1 α then mix 1 a b else mix α a b
+
 /-- `Σ_iR χ(R_iR) X[iR][c]` — every k-space quantity is such a sum (χ = Bloch phase, possibly times R components) -/
 def blochSum [Add K] [Mul K] [OfNat K 0] (χ : Vec3 → K) (Rs : List Vec3) (X : Nat → Nat → K) (c : Nat) : K :=
   ((List.range Rs.length).map (fun ir => χ (Rs.getD ir (0, 0, 0)) * X ir c)).sum
